@@ -165,6 +165,7 @@ SRefs == { Own("n"), Own("k"), Own("s"), Own("b"), Own("K"), Own("nope"),
            Fld(VarR("@A"), "n"), Fld(Fld(Fld(VarR("@A"), "m"), "deep"), "z"), Fld(VarR("@A"), "nope"),
            Idx(Fld(VarR("@A"), "fx"), NumA("3")), Idx(Fld(VarR("@A"), "fx"), NumA("1")), Fld(VarR("@A"), "s"),
            Idx(Own("xs"), Own("k")), Idx(Own("fx"), Own("k")),
+           Idx(Own("fx"), ConstA("NAN")), Idx(Own("fx"), ConstA("INF")), Idx(Own("xs"), ConstA("NAN")), Idx(Fld(VarR("@A"), "fx"), ConstA("NAN")),
            Idx(Own("fz"), NumA("0")), Idx(Own("fz"), NumA("1")), Idx(Own("fz"), Own("k")), Idx(Own("f1"), NumA("0")), Idx(Own("f1"), NumA("1")),
            Idx(Fld(VarR("@A"), "fz"), NumA("0")) }
 SArrs == { Own("xs"), Own("fx"), Own("n"), Own("nope"), Fld(VarR("@A"), "xs"), Fld(Own("m"), "n"), Own("ms") }
